@@ -342,7 +342,12 @@ func c06Compare(c rnnCase, outs []tensor.Tensor, Y, Yh, Yc []float64) string {
 		for _, v := range want[i] {
 			mag = math.Max(mag, math.Abs(v))
 		}
-		if mag > 1e4 {
+		for _, w := range want {
+			for _, v := range w {
+				mag = math.Max(mag, math.Abs(v)) // any diverging output makes the whole case meaningless
+			}
+		}
+		if mag > 1e4 || !(sens <= 1) {
 			// a diverging recurrence (relu as gate activation lets the state grow geometrically):
 			// rounding errors are amplified at the same rate and float32 eventually overflows, so
 			// the values carry no information; shapes and types were checked above
@@ -431,8 +436,13 @@ func c06Split(c rnnCase, whole []tensor.Tensor, k int) string {
 	}
 	y := append(f64s(r1.outs[0]), f64s(r2.outs[0])...)
 	mag := 1.0
-	for _, v := range f64s(whole[0]) {
-		mag = math.Max(mag, math.Abs(v))
+	for _, w := range whole {
+		for _, v := range f64s(w) {
+			if math.IsNaN(v) {
+				v = math.Inf(1)
+			}
+			mag = math.Max(mag, math.Abs(v))
+		}
 	}
 	if !(mag <= 1e4) {
 		return "" // diverging recurrence, see c06Compare
@@ -440,7 +450,11 @@ func c06Split(c rnnCase, whole []tensor.Tensor, k int) string {
 	Yr, Yhr, Ycr, ok := refRecurrent(c, c.inputForget == 1)
 	splitTol := 1e-6 * mag
 	if ok {
-		splitTol += 2000 * c06Sensitivity(c, c.inputForget == 1, Yr, Yhr, Ycr)
+		sens := c06Sensitivity(c, c.inputForget == 1, Yr, Yhr, Ycr)
+		if !(sens <= 1) {
+			return ""
+		}
+		splitTol += 2000 * sens
 	}
 	if d := maxAbsDiff(y, f64s(whole[0])); d > splitTol {
 		return fmt.Sprintf("split at %d: concatenated Y differs from the whole-sequence Y by %g", k, d)
